@@ -238,7 +238,11 @@ class Gen:
         elif rng.chance(1, 15):
             bad = 2
         tk = rng.choice(self.toks) if rng.chance(1, 6) else 0
-        self.datagram(1, self.remote(), rng.below(3), tk, bad, dcid)
+        r, l = self.remote(), rng.below(3)
+        tup = sorted((m["r"], m["l"]) for m in self.t.conns.values())
+        if tup and rng.chance(1, 3):
+            r, l = rng.choice(tup)      # a tuple some live connection holds (zero-length CIDs: takeover)
+        self.datagram(1, r, l, tk, bad, dcid)
 
     def accept(self):
         rng, t = self.rng, self.t
